@@ -79,6 +79,13 @@ def main(argv=None) -> int:
             except Exception as e:  # scratch-copy trouble (disk, git) must not turn into a verdict
                 st["seeded_and_benign_corpus"] = {"summary": f"not run: {type(e).__name__}: {e}"[:200]}
             try:
+                from . import autoequiv
+
+                st["equivalence_transformations"] = autoequiv.run_for(prop, program)
+                st["summary"] += " autoequiv=" + st["equivalence_transformations"].get("summary", "-").replace(",", "/")
+            except Exception as e:
+                st["equivalence_transformations"] = {"summary": f"not run: {type(e).__name__}: {e}"[:200]}
+            try:
                 st["operator_mutants"] = automut.run_for(prop, program, per_anchor=60)
                 st["operator_mutants"].pop("_all_survivors", None)
             except Exception as e:
